@@ -529,13 +529,17 @@ func c20(c *core.Ctx) {
 						}
 						okArm := false
 						if st.Dir == types.RecvOnly && core.TypeStr(st.Chan.Type().Underlying().(*types.Chan).Elem()) == "struct{}" {
-							okArm = core.AllOrigins(st.Chan, func(o ssa.Value) bool {
+							// (through what a helper of the module returns: doneOrNil(ctx))
+							okArm = true
+							for _, o := range core.XOrigins(st.Chan) {
 								if core.IsNilConst(o) {
-									return true
+									continue
 								}
-								dc, ok := o.(*ssa.Call)
-								return ok && dc.Call.IsInvoke() && dc.Call.Method.Name() == "Done"
-							})
+								if dc, ok := o.(*ssa.Call); ok && dc.Call.IsInvoke() && dc.Call.Method.Name() == "Done" {
+									continue
+								}
+								okArm = false
+							}
 						}
 						if !okArm {
 							bad = "has an arm that is not a context-Done receive"
@@ -775,7 +779,7 @@ func c20(c *core.Ctx) {
 					if ci.Static == nil || !receivesFromParam(ci.Static) {
 						return
 					}
-					core.GuardedBy(call, func(f core.Fact) bool {
+					isState := func(f core.Fact) bool {
 						if f.Op != token.EQL {
 							return false
 						}
@@ -786,7 +790,14 @@ func c20(c *core.Ctx) {
 							return true
 						}
 						return false
-					})
+					}
+					core.GuardedBy(call, isState)
+					// a single-use step function (awaitFirstFrameLocked): the state test is made where it is called
+					if recv == nil {
+						if site := core.InlineSite[fn]; site != nil {
+							core.GuardedBy(site, isState)
+						}
+					}
 				})
 				if recv == nil {
 					continue
